@@ -573,21 +573,32 @@ def run(ctx):
             res.count('node.rejected-by-frappy')
             continue
         items.append(('gen-%d' % case['seed'], {'kind': 'generated', 'seed': case['seed'], 'big': case['big']}, data))
+    def judge_items(items):
+        reqs = []
+        for _, _, data in items:
+            reqs += to_requests(data)
+        answers = []
+        for i in range(0, len(reqs), 40):
+            answers += ctx.driver.batch(reqs[i:i + 40])
+        for j, (label, case, data) in enumerate(items):
+            evaluate(ctx, res, label, case, data, answers[2 * j], answers[2 * j + 1])
+
+    # phase 1: generated nodes (fake drivers).  phase 2: the shipped configurations, whose drivers are REAL code: they are
+    # probed only with requests the node must refuse before any driver is involved, and only when phase 1 found the tree
+    # honouring its reports — a tree that already executes what it should refuse is not let loose on real drivers
+    judge_items(items)
+    if res.violations:
+        res.notes.append('shipped configurations NOT run: the generated nodes already show violations')
+        return res
     nodes, skipped = shipped_nodes(ctx)
     res.notes.append('shipped configurations run: %s; skipped (do not instantiate here): %s'
                      % ([n for n, _, _ in nodes], skipped))
+    items = []
     for name, node, mods in nodes:
         data = run_node(random.Random(name), node, None, None, None, cfgs=mods)
         items.append(('cfg-' + name, {'kind': 'cfg', 'name': name}, data))
         res.count('shipped-cfg')
-    reqs = []
-    for _, _, data in items:
-        reqs += to_requests(data)
-    answers = []
-    for i in range(0, len(reqs), 40):
-        answers += ctx.driver.batch(reqs[i:i + 40])
-    for j, (label, case, data) in enumerate(items):
-        evaluate(ctx, res, label, case, data, answers[2 * j], answers[2 * j + 1])
+    judge_items(items)
     return res
 
 
